@@ -97,6 +97,15 @@ def diff(a, b, path="", out=None, limit=6):
         for i, (x, y) in enumerate(zip(a[1], b[1])):
             diff(x, y, f"{path}[{i}]", out, limit)
         return out
+    if isinstance(a, tuple) and isinstance(b, tuple) and len(a) == len(b) and len(a) > 0:
+        for i, (x, y) in enumerate(zip(a, b)):
+            if x != y:
+                sub = f"{path}.{x[0]}" if (isinstance(x, tuple) and len(x) == 2 and isinstance(x[0], str)) else f"{path}<{i}>"
+                if isinstance(x, tuple) and len(x) == 2 and isinstance(x[0], str) and isinstance(y, tuple) and len(y) == 2 and x[0] == y[0]:
+                    diff(x[1], y[1], sub, out, limit)
+                else:
+                    diff(x, y, sub, out, limit)
+        return out
     out.append(f"{path}: {str(a)[:80]} != {str(b)[:80]}")
     return out
 
